@@ -63,6 +63,46 @@ def _write_target(x):
     return None
 
 
+def tryadd_verdict_under_shutdown(prog, res):
+    """T3: POOL_add_internal drops the job when the pool is shutting down; POOL_tryAdd may therefore answer `accepted` (1)
+    only on the edge where shutdown is clear."""
+    R = "T3.exactly-once"
+    f = prog.fn("POOL_tryAdd")
+    acc = [(b, i) for b, i, r in f.returns() if const_val(r.get("e")) == 1]
+    from ..rules import guards as _g4
+    alive = _g4.truthy_edges(f, lambda c: c.get("k") == "mem" and c.get("f") == "shutdown", truth=False)
+    res.check(bool(acc) and bool(alive) and f.must_pass(via_edges=alive, targets=acc), R, "POOL_tryAdd:accepted-only-while-alive", f.loc,
+              "returns 1 only on the !shutdown edge", "POOL_tryAdd can answer `accepted` while the pool is shutting down, although POOL_add_internal drops the job: an accepted job never runs")
+
+
+def emptiness_flag(prog, res):
+    """T9: a pool created with queueSize 0 has a one-slot ring: queueHead == queueTail holds both when the slot is free and
+    when it is taken, and `queueEmpty` is the only record of a pending job.  Outside the two places that DEFINE the flags
+    (the assignment of queueEmpty, and isQueueFull's `(tail+1) % size == head`), no decision may compare queueHead with
+    queueTail."""
+    R = "T9.emptiness-flag"
+    n = 0
+    for f in prog.fns_in("common/pool.c"):
+        for bid, cond, t, fl in f.branches():
+            n += 1
+            c = strip_casts(f.resolve_x(cond))
+            if c is None or c.get("k") != "bin" or c.get("op") not in ("==", "!="):
+                continue
+            L = {y.get("f") for y in f.walk_resolved(c["lhs"]) if y.get("k") == "mem"}
+            Rr = {y.get("f") for y in f.walk_resolved(c["rhs"]) if y.get("k") == "mem"}
+            direct = ("queueHead" in L and "queueTail" in Rr) or ("queueTail" in L and "queueHead" in Rr)
+            arith = any(y.get("k") == "bin" and y.get("op") in ("+", "%") for y in f.walk_resolved(c))
+            if direct and not arith:
+                res.bad(R, "%s:head-vs-tail" % f.name, f.loc,
+                        "%s decides on queueHead %s queueTail: for a queue-size-0 pool both are always 0, so a job waiting in the slot is invisible "
+                        "(POOL_joinJobs returns before an accepted job has even started)" % (f.name, c["op"]))
+    j = prog.fn("POOL_joinJobs")
+    usesflag = any(y.get("k") == "mem" and y.get("f") == "queueEmpty" for bid, cond, t, fl in j.branches() for y in j.walk_resolved(j.resolve_x(cond)))
+    res.check(usesflag, R, "POOL_joinJobs:waits-on-queueEmpty", j.loc, "the join predicate reads queueEmpty", "POOL_joinJobs no longer tests queueEmpty")
+    res.count(R + ".branches", n)
+    res.need(R, 1)
+
+
 def run(tier):
     res = Result("C12", tier)
     tus, info = extract(["common", "programs"] if True else ["common"])
@@ -118,6 +158,8 @@ def run(tier):
     res.need("T2.wait-loop(aio)", 1)
     res.need("T1.guarded-by(aio)", 6)
 
+    emptiness_flag(prog, res)
+    tryadd_verdict_under_shutdown(prog, res)
     return res.finish(
         explanation="Lockset (guarded-by), lock pairing, wait-in-predicate-loop, must-signal-after-write, "
                     "exactly-once dequeue/execute structure, destroy-after-join order and ring-index "
